@@ -584,7 +584,8 @@ def oix_compare(exe, items):
     paths; a type the final state no longer shows is a wildcard), (2) the outline it determines with the real handler's.
     Returns (disagreements, stats)."""
     stats = {"oix_workspaces": 0, "oix_noncore": 0, "oix_ops": 0, "oix_outline_files": 0,
-             "source_theorem_applicable": 0, "source_theorem_counts_agree": 0}
+             "source_theorem_applicable": 0, "source_theorem_counts_agree": 0,
+             "files_theorem_hypotheses_hold": 0, "multi_file_workspaces": 0}
     lines, metas = [], []
     for ws, d, ca in items:
         if not isinstance(d, dict) or not d.get("oplog") and d.get("oplog") != []:
@@ -604,6 +605,11 @@ def oix_compare(exe, items):
         except Exception:
             bad.append(dict(base, kind="oix-model-crash", model=o[:300], observed=None))
             continue
+        # hypotheses of C18_outline_files_complete: no modelled panic, declarations well-formed (decidable, syntactic)
+        if r.get("bad") is False and r.get("decls_wf") is True:
+            stats["files_theorem_hypotheses_hold"] += 1
+        if len(ca["files"]) > 1:
+            stats["multi_file_workspaces"] += 1
         # side condition of C18_outline_source_complete (single file, no include): registered vs source declaration counts
         dc = r.get("decl_counts")
         if dc is not None:
